@@ -243,7 +243,7 @@ class Gen:
             t = "".join(r.choice("abcXYZ 09_-") for _ in range(r.randrange(0, 8)))
             self.section_bytes += len(t)
             return [("ascii", t)]
-        if c < 0.70 and "incbin" in self.f:
+        if c < 0.70 and self.f.get("incbin"):
             name = self.fresh("bin") + ".dat"
             ln = r.choice([0, 1, 2, 17, 40])
             self.bins[name] = bytes(r.randrange(256) for _ in range(ln))
